@@ -478,8 +478,10 @@ func (r *rewriter) memAccesses(stmt ast.Stmt) []ast.Stmt {
 			if !ok || v.Pkg() != r.pkg || v.Parent() != r.pkg.Scope() {
 				return false
 			}
-			_, isBasic := v.Type().Underlying().(*types.Basic)
-			return isBasic
+			switch v.Type().Underlying().(type) {
+			case *types.Basic, *types.Array, *types.Slice, *types.Map, *types.Struct:
+				return true
+			}
 		}
 		return false
 	}
@@ -512,7 +514,18 @@ func (r *rewriter) memAccesses(stmt ast.Stmt) []ast.Stmt {
 			}
 		case *ast.UnaryExpr:
 			if x.Op == token.AND {
-				return false // address taken, not an access
+				// the address of a shared variable escapes: whoever gets it can
+				// write through it, so it counts as a write access
+				if isTarget(x.X) {
+					add(x.X, true)
+				}
+				return false
+			}
+		case *ast.SliceExpr:
+			// slicing a shared array or slice hands out a mutable alias
+			if isTarget(x.X) {
+				add(x.X, true)
+				return false
 			}
 		case ast.Expr:
 			if isTarget(x) {
